@@ -211,9 +211,87 @@ void sharedOptional(vf::Ctx & c)
     minGot = std::min<uint64_t>(minGot, got[q].size());
   }
   if (rest.has_value()) {c.check(seen.insert(*rest).second, "SharedOptionalVariable: pending value had already been consumed");}
+  // at quiescence nothing may be stuck: the store that came last in the global order is the final store of one of the
+  // producers, and it was either consumed or is still pending (returned by the consume() above)
+  bool finalAccounted = false;
+  for (int p = 0; p < producers; ++p) {
+    finalAccounted = finalAccounted || seen.count((static_cast<uint64_t>(p) << 32) | static_cast<uint64_t>(ops - 1)) != 0;
+  }
+  c.check(finalAccounted, vf::fmt("SharedOptionalVariable: after all threads finished, the last stored value of no producer was ever delivered (consumed %zu values, pending %s): a stored value got stuck",
+    seen.size(), rest.has_value() ? "one" : "none"));
   c.harnessCheck(total + static_cast<uint64_t>(producers) * ops >= 100000, "fewer than 1e5 operations in the run");
   c.nontrivial(minGot >= 2);
   if (minGot >= 2) {c.label("every-reader-saw>=2-values");}
+}
+
+
+// 2b. SharedOptionalVariable in bursts: producers store a short burst, everything stops, and at that quiescent point the
+// variable must hand out the value of the store that came last - a consume() that returns "empty" although a value was
+// stored and nobody took it is not producible by any sequential ordering of the calls. Many bursts per workload, so the
+// few instructions around the end of a burst are exercised often.
+void sharedOptionalBursts(vf::Ctx & c)
+{
+  int producers = static_cast<int>(c.s.i("producers", 1, 4));
+  int consumers = static_cast<int>(c.s.i("consumers", 1, 4));
+  int bursts = static_cast<int>(c.s.i("bursts", 150, 300));
+  int burstLen = static_cast<int>(c.s.i("stores_per_burst", 50, 400));
+  uint64_t seed = c.s.seed("value_seed");
+  c.label(producers == 1 ? "1-producer" : "2-4-producers");
+  c.label(consumers == 1 ? "1-consumer" : "2-4-consumers");
+  c.commit();
+  SharedOptionalVariable<uint64_t> var;
+  std::set<uint64_t> seen;
+  uint64_t totalOps = 0, delivered = 0;
+  for (int b = 0; b < bursts; ++b) {
+    std::atomic<int> producersDone{0};
+    StartGate gate(producers + consumers);
+    std::vector<std::vector<uint64_t>> got(consumers);
+    std::vector<uint64_t> consumerOps(consumers, 0);
+    std::vector<std::thread> th;
+    const int len = 1 + static_cast<int>((seed + 31 * b) % static_cast<uint64_t>(burstLen));
+    for (int p = 0; p < producers; ++p) {
+      th.emplace_back([&, p] {
+          gate.arriveAndWait();
+          for (int k = 0; k < len; ++k) {
+            var.store((static_cast<uint64_t>(b) << 40) | (static_cast<uint64_t>(p) << 32) | static_cast<uint64_t>(k));
+          }
+          producersDone.fetch_add(1);
+        });
+    }
+    for (int q = 0; q < consumers; ++q) {
+      th.emplace_back([&, q] {
+          gate.arriveAndWait();
+          while (producersDone.load() < producers) {
+            std::optional<uint64_t> v = var.consume();
+            consumerOps[q]++;
+            if (v.has_value()) {got[q].push_back(*v);}
+          }
+        });
+    }
+    for (auto & t : th) {t.join();}
+    // quiescent: the final store of some producer is the content of the variable unless a consumer already took it
+    std::optional<uint64_t> rest = var.consume();
+    bool finalAccounted = false;
+    for (int q = 0; q < consumers; ++q) {
+      for (uint64_t v : got[q]) {
+        c.check((v >> 40) == static_cast<uint64_t>(b), "SharedOptionalVariable: a value of an earlier burst was delivered late");
+        c.check(seen.insert(v).second, "SharedOptionalVariable: a value was handed out twice");
+        delivered++;
+      }
+      totalOps += consumerOps[q];
+    }
+    if (rest.has_value()) {c.check(seen.insert(*rest).second, "SharedOptionalVariable: pending value had already been consumed"); delivered++;}
+    for (int p = 0; p < producers; ++p) {
+      finalAccounted = finalAccounted || seen.count((static_cast<uint64_t>(b) << 40) | (static_cast<uint64_t>(p) << 32) | static_cast<uint64_t>(len - 1)) != 0;
+    }
+    if (!finalAccounted) {
+      c.fail(vf::fmt("SharedOptionalVariable: burst %d (%d stores by each of %d producers, %d consumers): after everything stopped, consume() returned %s and the last stored value of no producer was ever delivered - a stored value is stuck",
+        b, len, producers, consumers, rest.has_value() ? "an older value" : "empty"));
+    }
+    totalOps += static_cast<uint64_t>(producers) * len + 1;
+  }
+  c.nontrivial(delivered >= 2);
+  if (totalOps >= 100000) {c.label(">=1e5-operations");}
 }
 
 // 3./4. online statistics
@@ -411,6 +489,7 @@ void rateMonitoring(vf::Ctx & c)
       }
       res.distinct += 2;
     });
+  std::string writerError;
   {
     vf::Rng rng(w.seed);
     long long t = 0;
@@ -418,13 +497,18 @@ void rateMonitoring(vf::Ctx & c)
     for (int k = 1; k <= w.writerOps; ++k) {
       t += 50000000LL + static_cast<long long>(rng.below(150000001ULL));
       double rate = mon.update(durationFromNanoSecond(t));
-      (void)rate;
+      // update() reports the rate it has just computed: once the window (20 periods) is full that is never 0 and always
+      // a value of the sequential run, whatever the heartbeat thread does meanwhile
+      if (k > 21 && writerError.empty() && (rate == 0.0 || !sequentialRates.count(rate))) {
+        writerError = vf::fmt("RateMonitoring: update() #%d returned %.17g, which is not the rate of its own window (a concurrent heartbeat leaked into the call)", k, rate);
+      }
       now.store(t);
       maybeYield(rng, w.yieldEvery);
     }
     done.store(true);
   }
   for (auto & t : th) {t.join();}
+  if (!writerError.empty()) {c.fail(writerError);}
   finish(c, rr, w.writerOps);
 }
 
@@ -541,7 +625,7 @@ void checkupRate(vf::Ctx & c)
   c.commit();
   RateCheckup chk("imu", 10.0, 1.0);   // OK within [9,11] (equal-to) / above 9 (greater-than)
   const std::string name = "imu_rate";
-  std::atomic<bool> done{false};
+  std::atomic<bool> done{false}, heartbeatDone{false};
   std::atomic<long long> now{0};
   StartGate gate(w.readers + 2);
   std::vector<ReaderResult> rr(w.readers + 1);
@@ -552,7 +636,7 @@ void checkupRate(vf::Ctx & c)
         ReaderResult & res = rr[r];
         std::string last = "?";
         gate.arriveAndWait();
-        while (!done.load() || res.ops < 2000) {
+        while (!heartbeatDone.load() || res.ops < 2000) {
           DiagnosticReport rep = chk.getReport();
           res.ops++;
           std::string err;
@@ -599,6 +683,25 @@ void checkupRate(vf::Ctx & c)
         res.ops++;
         maybeYield(rng, w.yieldEvery);
       }
+      // the data thread has stopped: every late heartbeat now detects the silence, and since no evaluation can come in
+      // between, the report read right afterwards by this very thread must be the STALE one - while the readers
+      // keep copying reports concurrently
+      for (int q = 0; q < 3000; ++q) {
+        long long t = now.load() + 600000000LL + q;
+        bool alive = chk.heartBeatCallback(durationFromNanoSecond(t));
+        DiagnosticReport rep = chk.getReport();
+        res.ops += 2;
+        if (res.error.empty()) {
+          if (alive) {res.error = "rate check-up: heartbeat 0.6 s after the last stamp did not report a timeout";} else if (
+            rep.diagnostics.empty() || rep.diagnostics.front().status != DiagnosticStatus::STALE || !rep.info.begin()->second.empty())
+          {
+            res.error = "rate check-up: heartBeatCallback reported a timeout but the report read right afterwards (no evaluation in between) is not STALE/empty: status " +
+              (rep.diagnostics.empty() ? std::string("-") : toString(rep.diagnostics.front().status)) + ", value '" + rep.info.begin()->second + "'";
+          }
+        }
+        maybeYield(rng, w.yieldEvery);
+      }
+      heartbeatDone.store(true);
       res.distinct += 2;
     });
   {
@@ -632,6 +735,7 @@ const char * kRule =
 const std::vector<vf::Sub> kSubs = {
   {"shared_variable", sharedVariable, kRule},
   {"shared_optional", sharedOptional, kRule},
+  {"shared_optional_bursts", sharedOptionalBursts, kRule},
   {"online_average", onlineStat<false>, kRule},
   {"online_variance", onlineStat<true>, kRule},
   {"online_variance_sequence", onlineVarianceSequence, kRule},
